@@ -77,14 +77,15 @@ def run_cases(pid, workdir, cases, binary, batch=60, env=None, module="EngineTra
                 try: keep[json.loads(ex[0]).get("id")] = ex
                 except Exception: pass
         return dict(accepted=acc, rejections=rej, states=states, events=events, executions=len(execs), nontrivial=nt,
-                    sample=(execs[0][:40] if execs and i == 0 else None), execs_by_id=keep)
+                    sample=(execs[0][:40] if execs and i == 0 else None), execs_by_id=keep,
+                    driver_errors=([dict(rc=crashed["rc"], err=crashed["err"], cases="".join(c.text() for c in b))] if crashed else []))
     results = vlib.parallel(one, list(enumerate(batches)))
-    tot = dict(accepted=0, rejections=[], states=0, events=0, executions=0, nontrivial=set(), sample=None, execs_by_id={})
+    tot = dict(accepted=0, rejections=[], states=0, events=0, executions=0, nontrivial=set(), sample=None, execs_by_id={}, driver_errors=[])
     for r in results:
         tot["accepted"] += r["accepted"]; tot["rejections"] += r["rejections"]; tot["states"] += r["states"]
         tot["events"] += r["events"]; tot["executions"] += r["executions"]; tot["nontrivial"] |= r["nontrivial"]
         if r["sample"] and not tot["sample"]: tot["sample"] = r["sample"]
-        tot["execs_by_id"].update(r["execs_by_id"])
+        tot["execs_by_id"].update(r["execs_by_id"]); tot["driver_errors"] += r["driver_errors"]
     return tot
 
 def model_check(cfgname, module, workers=None, timeout=3000, heap="-Xmx20g", simulate=None):
